@@ -450,6 +450,10 @@ func (g *Gen) catScenario(kind string) (string, []string) {
 			add(fmt.Sprintf("W:%s:0:%s", k2, g.catYears(now)))
 			add("D:" + k2)
 		}
+		if g.Intn(2) == 0 { // auto-creating write (default categories) into whatever the root has become
+			add(fmt.Sprintf("W:%s:0:%s", "Q/1Min/W", g.catYears(now)))
+			tags = append(tags, "autocreate_after_cats")
+		}
 		add("R")
 		add("S")
 		add("L")
